@@ -53,7 +53,8 @@ ASSUMPTIONS = [
     "only generated with an empty tail",
 ]
 
-WAYS = ["path-str", "path-Path", "path-DirEntry", "path-fspath-object", "file-URL",
+WAYS = ["text-stream-universal", "path-str", "path-Path", "path-DirEntry",
+        "path-fspath-object", "file-URL",
         "text-stream", "binary-file", "BytesIO", "loads-str", "loads-bytes",
         "text-stream-after-readline", "binary-file-after-readline",
         # streams that cannot be rewound (what a program gets on its standard input)
@@ -270,8 +271,17 @@ def load_all_ways(label, data):
     end_pos = len(label) - 3
     if lf0.stats["maxpos"] != end_pos:
         # the final END is not read as the END statement (it sits in a '#' comment
-        # that a bare CR does not end, say): what follows it is then part of the label
-        return ("skip", "the label's last word is not its END statement")
+        # that a bare CR does not end, say): what follows it is then part of the label.
+        # Unless the loader took dash continuations out of the text before lexing it:
+        # positions then count in the shortened text, and the END statement is the last
+        # token it handed out
+        import re as _re
+        if _re.search(r"-[\n\r\f]", label) and \
+                str(lf0.stats["maxtok"]).casefold() == "end" and \
+                lf0.stats["maxpos"] < end_pos:
+            end_pos = lf0.stats["maxpos"]
+        else:
+            return ("skip", "the label's last word is not its END statement")
     try:
         whole = data.decode("utf-8")
     except UnicodeDecodeError:
@@ -297,6 +307,16 @@ def load_all_ways(label, data):
                         m = pvl.load(f, lexer_fn=lf)
                 elif way == "binary-file":
                     with open(path, "rb") as f:
+                        m = pvl.load(f, lexer_fn=lf)
+                elif way == "text-stream-universal":
+                    # the ordinary open(path): Python hands CR LF and CR over as LF.
+                    # Same module, unless a line end is content (units; a '#' comment
+                    # ends at LF only) - the default loader folds those in strings
+                    import re as _re
+                    if "\r" not in label or whole is None or "#" in label or \
+                            _re.search(r"<[^<>]*\r[^<>]*>", label):
+                        continue
+                    with open(path, "r", encoding="utf-8") as f:
                         m = pvl.load(f, lexer_fn=lf)
                 elif way.endswith("-after-readline"):
                     # the caller has consumed a header line: load() must go on from
@@ -349,8 +369,9 @@ def load_all_ways(label, data):
                     f"{way}: a token starting at {lf.stats['maxpos']} "
                     f"({lf.stats['maxtok']!r}) was requested, END is at {end_pos}; "
                     f"tail starts {data[len(label):len(label) + 40]!r}")
-        if lf.stats.get("maxpos_all", -1) > end_pos:
+        if lf.stats.get("maxpos_all", -1) > max(end_pos, len(label) - 3):
             # some other pass over the text (not the parse itself) lexed beyond END
+            # (such a pass reads the text as written: END is at len(label) - 3 there)
             return (f"C09/{way}/token-beyond-END-in-a-pre-pass",
                     f"{way}: a token starting at {lf.stats['maxpos_all']} "
                     f"({lf.stats['maxtok_all']!r}) was requested from one of "
@@ -648,6 +669,10 @@ FIXED_LABELS = [
     "/* c\rd */ a = 1\rEND", "a = 1 <m\rs>\nEND", "a = 1\n\rEND", "a = 1\x0b\x0cb = 2\x0cEND",
     "a = \"caf\u00e9\"\rEND", "note = \"a -\r   b\"\rEND",
     "a = 1 # ---\nb = 2\nEND", "# ---- geometry ----\na = 1\nEND", "a = 1 # x-\r\nEND",
+    # dash continuations in CR LF and CR-only labels (an ordinarily opened text stream
+    # hands them over with LF)
+    "a = la-\r\n   zy\r\nb = 2\r\nEND", "note = \"the la-\r\n   zy dog\"\r\nEND",
+    "a = (x-\r\n\ty, 2)\r\nEND", "a = la-\r   zy\rEND", "a = \"p -\r\n\r\n q\"\r\nb = x-\r\n\r\ny\r\nEND",
     # the End Statement as ISIS writes it, and in small letters
     "a = 1 # ---\nb = 2\nEnd", "# ---- Core ----\nObject = IsisCube\n  a = 1\nEnd_Object\nEnd",
     "a = 1 # x -\nend", "Group = g\n  k = v # --\nEnd_Group\nEnd", "a = (1, # -\n 2)\neNd",
